@@ -427,9 +427,16 @@ def run_solve(prob, case, *, solver, backend, t_end, dt, cut_times=(), **solver_
     eq = prob.equation()
     field = prob.field()
     before = field.data.copy()
+    from pde.solvers.base import ConvergenceError
+
     with _Watchdog(f"{solver}:{backend}"):
-        res, info = eq.solve(field, t_range=(prob.t_start, t_end), dt=dt, solver=solver, backend=backend,
-                             tracker=tracker, ret_info=True, **solver_kw)
+        try:
+            res, info = eq.solve(field, t_range=(prob.t_start, t_end), dt=dt, solver=solver, backend=backend,
+                                 tracker=tracker, ret_info=True, **solver_kw)
+        except ConvergenceError as e:
+            # documented failure mode of the fixed-point schemes (non-linear rate with dt*L close to 1:
+            # thorough tier, implicit Euler with g = -0.5, dt = 1)
+            raise Rejected(f"ConvergenceError: {e}") from None
     if not np.array_equal(field.data, before):
         raise Violation("solve() modified the initial state", key=f"{solver}:{backend}:initial-state-modified")
     if res.data.shape != tuple(prob.shape):
@@ -542,7 +549,10 @@ def check_fixed(case):
         if solver == "runge-kutta" and prob.a == 0:
             # Simpson's rule is exact for cubic p: compare with the exact integral
             ex = prob.exact(t_end)
-            if not float(np.abs(data - ex).max()) <= 2 * E[n] + 8 * EPS * float(np.abs(ex).max()):
+            # (the solver advances by n*dt; the floating-point t_end = t_start + n*dt differs from that by up
+            # to an ulp of t - false alarm of the thorough tier at t_start = 80, dt = 0.1)
+            slack = abs(prob.b) * prob.p_bounds(t0, t_end)[0] * 2 * ulp(max(abs(t0), abs(t_end)))
+            if not float(np.abs(data - ex).max()) <= 2 * E[n] + 8 * EPS * float(np.abs(ex).max()) + slack:
                 raise Violation(f"{tag}: RK4 does not integrate the cubic forcing exactly: got {data!r}, "
                                 f"exact {ex!r}", key=f"{tag}:quadrature")
 
@@ -660,7 +670,7 @@ def check_agreement(case):
     t_end = t0 + n * dt
     kw = {}
     # bounded problem: |u| stays below this crude bound (Gronwall); used for tolerances only
-    pmax, _ = prob.p_bounds(t0 - dt, t_end)
+    pmax, dmax = prob.p_bounds(t0 - dt, t_end)
     lip = abs(prob.a) + abs(prob.g)
     growth = math.exp(min(lip * n * dt, 50.0))
     bound = (max(abs(v) for v in prob.u0) + n * dt * abs(prob.b) * pmax) * growth
@@ -688,6 +698,10 @@ def check_agreement(case):
     if solver in FIXED_POINT:
         rho = min(0.95, lip * dt)
     tol = (n + 1) * 64 * EPS * growth * bound / (1 - rho) + (n + 1) * 4 * kw.get("maxerror", 0.0) * growth / (1 - rho) ** 2
+    # the compiled rate evaluates (t - tc)/ts with fastmath, which may distribute the division (t/ts - tc/ts):
+    # the argument of the forcing is then only known to eps*(|t| + |tc|)/|ts| (false alarm of the thorough tier
+    # at t = 848, ts = 0.3)
+    tol += (n + 1) * dt * abs(prob.b) * dmax * 16 * EPS * (max(abs(t0), abs(t_end)) + abs(prob.tc)) * growth / (1 - rho)
     worst = 0.0
     for (ta, a_), (tb, b_) in list(zip(r1, r2)) + [((t_end, d1), (t_end, d2))]:
         err = float(np.abs(a_ - b_).max())
@@ -901,7 +915,10 @@ def check_scipy(case):
     T = float(case["T"])
     t0 = prob.t_start
     t_end = t0 + T
-    cut_times = [t0 + float(fr) * T for fr in case.get("cuts", [])]
+    # distinct interrupt times (two fractions one ulp apart collapse onto one time once t_start is added; a
+    # schedule with a repeated time is not strictly increasing - thorough tier: the scipy stepper is then called
+    # with an empty range and fails with an AttributeError, recorded as an observation in DESIGN.md)
+    cut_times = sorted({t0 + float(fr) * T for fr in case.get("cuts", [])})
     dt0 = case.get("dt0")
     tag = f"scipy:{backend}"
     data, info, records = run_solve(prob, case, solver="scipy", backend=backend, t_end=t_end,
